@@ -49,12 +49,12 @@ def dumpSched : Sched → String
 
 partial def dumpTree (s : P7540) (nid : Nat) : String :=
   let n := s.node nid
-  s!"({n.id} w{n.weight} s{n.state} b{n.bytes} t{n.sub} q{n.q.clen - n.q.cpos + n.q.nlen}" ++
+  s!"({n.id} w{n.weight} s{n.state} b{n.bytes} t{n.sub} q{qlen n.q}" ++
     String.join (n.kids.map (dumpTree s)) ++ ")"
 
 def dumpP7 (s : P7540) : String :=
   let ids := (s.nodes.map (·.1)).mergeSort (· ≤ ·)
-  s!"p7 max={s.maxID} lim={s.limit} pool={s.pool.length} closed={showIds (s.closedL.map fun n => (s.node n).id)} " ++
+  s!"p7 max={s.maxID} lim={s.limit} pool={s.poolN} closed={showIds (s.closedL.map fun n => (s.node n).id)} " ++
   s!"idle={showIds (s.idleL.map fun n => (s.node n).id)} nodes={showIds ids} tree={dumpTree s 0}"
 
 def doOp (st : St) (op : Op) : St × String :=
